@@ -254,6 +254,12 @@ def st_case(draw):
     if cls == "int":
         kw = draw(G.st_point_kw(cm, forms=G.INT_FORMS))
         tz = draw(G.st_tz())
+        if draw(st.integers(0, 3)) == 0:
+            # near midnight on a month / year / leap-day edge; the
+            # destination is on the other side of it
+            kw = draw(G.st_edge_point_kw(cm, forms=G.INT_FORMS))
+            tz = draw(st.sampled_from(
+                [(0, 0), (0, 0), (-kw["time_zone_hour"], -kw["time_zone_minute"])]))
     elif cls == "dyadic":
         kw = draw(G.st_point_kw(cm, forms=G.ALL_FORMS, dyadic=True,
                                 tz=draw(st.sampled_from(QUARTER_TZ))))
